@@ -2,4 +2,4 @@ From Coq Require Extraction.
 From Coq Require Import ExtrOcamlBasic.
 From MLPE Require Import Extract.Driver.
 Extraction Language OCaml.
-Separate Extraction run_case mk_prog built_of default_order eval_case frag_flags fsstore_case fsstore_ext validate_case viewer_case paths_case modelcheck_case is_plain_case valid_orders_case by_depth_case.
+Separate Extraction run_case mk_prog with_pick built_of default_order eval_case frag_flags fsstore_case fsstore_ext validate_case viewer_case paths_case modelcheck_case is_plain_case valid_orders_case by_depth_case.
